@@ -33,7 +33,11 @@ func judgeConservation(j *judgeCtx) {
 		infl := j.inflightAt(seq)
 		startable := 0
 		for _, s := range wd.subs {
-			if !j.accepted(s) || s.AddRet == 0 || s.AddRet > seq {
+			// pending = reported as accepted by then, or (wrapped queues) already stored in the
+			// queue by a call that is still in progress - e.g. a batch whose later items wait
+			// for room in a bounded queue: whatever is in the queue has been announced
+			inQueue := s.AcceptKnown && s.Accepted && s.Enq != 0 && s.Enq < seq && s.AddInv != 0
+			if !(j.accepted(s) && s.AddRet != 0 && s.AddRet <= seq) && !inQueue {
 				continue
 			}
 			if len(s.Entries) > 0 && s.Entries[0] <= seq {
